@@ -113,18 +113,20 @@ class Report:
             (knownhits if o["key"] in kf else viol).append(o)
         stale = [k for k in kf if k not in seen]
         wall = time.time() - self.t0
+        no_ev = bool(os.environ.get("XV_NO_EVIDENCE"))
         os.makedirs(EVIDENCE_DIR, exist_ok=True)
         vdir = os.path.join(EVIDENCE_DIR, "violations")
         lines = []
         for o in knownhits:
             lines.append("KNOWN-FINDING: property=%s %s -- %s" % (self.pid, o["key"], kf[o["key"]].get("what", o.get("msg", ""))))
         replay_paths = []
-        if viol:
+        if viol and not no_ev:
             os.makedirs(vdir, exist_ok=True)
         for n, o in enumerate(viol):
             path = os.path.join(vdir, "%s-%d.json" % (self.pid, n))
-            with open(path, "w") as f:
-                json.dump({"property": self.pid, "obligation": o, "rule_text": self.rules.get(o["rule"], "")}, f, indent=1)
+            if not no_ev:
+                with open(path, "w") as f:
+                    json.dump({"property": self.pid, "obligation": o, "rule_text": self.rules.get(o["rule"], "")}, f, indent=1)
             replay_paths.append(path)
             lines.append("VIOLATION property=%s replay=%s" % (self.pid, path))
             lines.append("    %s%s\n    rule %s: %s\n    expected: %s\n    derived:  %s%s" % (
@@ -174,7 +176,7 @@ class Report:
             "violations": len(viol),
         }
         ev["coverage"].update(jsonable(self.extra))
-        if not self.only_key:
+        if not self.only_key and not no_ev:
             with open(os.path.join(EVIDENCE_DIR, "%s.json" % self.pid), "w") as f:
                 json.dump(ev, f, indent=1, sort_keys=False)
         for ln in lines:
